@@ -242,7 +242,7 @@ impl Entry {
 }
 
 /// Calls one inverse entry point; a panic is returned as Err(message).
-pub fn call(k: &dyn Kinematics, e: Entry, pose: &Pose, prev: &Joints, j6: f64) -> Result<Solutions, String> {
+fn call_once(k: &dyn Kinematics, e: Entry, pose: &Pose, prev: &Joints, j6: f64) -> Result<Solutions, String> {
     let r = catch_unwind(AssertUnwindSafe(|| match e {
         Entry::Inverse => k.inverse(pose),
         Entry::Continuing => k.inverse_continuing(pose, prev),
@@ -250,6 +250,39 @@ pub fn call(k: &dyn Kinematics, e: Entry, pose: &Pose, prev: &Joints, j6: f64) -
         Entry::Continuing5 => k.inverse_continuing_5dof(pose, prev),
     }));
     r.map_err(|p| panic_message(&p))
+}
+
+thread_local! {
+    /// A different, constrained robot living on the same thread; it is asked the same question just before every call
+    /// under test ("start from non-initial states"): nothing an instance remembers may leak into another one.
+    static DECOY: OPWKinematics = OPWKinematics::new_with_constraints(
+        crate::common::robots::make(0.07, 0.03, -0.02, [0.33, 0.41, 0.39, 0.06], [-1, 1, 1, -1, 1, -1], [0.1, -0.2, 0.3, 0.0, 0.5, -0.4], 6),
+        Constraints::new([-2.0, -1.5, -3.0, 0.5, -2.0, -1.0], [2.5, 1.9, 3.0, 6.0, 2.0, 4.0], 0.3),
+    );
+}
+
+/// One inverse-kinematics query on the stack under test. A quarter of the queries are (1) preceded by the same query on an unrelated
+/// robot of the same thread and (2) issued twice: the two answers must be bit-identical, otherwise the entry point is
+/// not a function of its arguments and the difference is reported in place of a panic message.
+pub fn call(k: &dyn Kinematics, e: Entry, pose: &Pose, prev: &Joints, j6: f64) -> Result<Solutions, String> {
+    // a quarter of the queries, chosen by their own argument bits (so the choice does not depend on threads or order)
+    let h = pose.translation.vector.x.to_bits() ^ pose.translation.vector.z.to_bits().rotate_left(21) ^ prev[3].to_bits().rotate_left(42) ^ j6.to_bits().rotate_left(9) ^ (e as u64);
+    if (h ^ (h >> 31) ^ (h >> 52)) % 4 != 0 {
+        return call_once(k, e, pose, prev, j6);
+    }
+    DECOY.with(|d| {
+        let _ = call_once(d, e, pose, prev, j6);
+    });
+    let first = call_once(k, e, pose, prev, j6)?;
+    DECOY.with(|d| {
+        let _ = call_once(d, e, pose, &first.first().copied().unwrap_or(*prev), j6);
+    });
+    let second = call_once(k, e, pose, prev, j6)?;
+    let same = first.len() == second.len() && first.iter().zip(second.iter()).all(|(a, b)| (0..6).all(|i| a[i].to_bits() == b[i].to_bits()));
+    if !same {
+        return Err(format!("not a function of its arguments: two identical {} calls (an unrelated robot queried in between) returned {first:?} and then {second:?}", e.name()));
+    }
+    Ok(first)
 }
 
 pub fn panic_message(p: &Box<dyn std::any::Any + Send>) -> String {
